@@ -1,7 +1,24 @@
 /-
-  C35 — property theorems over the two-party flow-control LTS (XC.Model.C35).
+  C35 — property theorems over the flow-control LTS.
+
+  One channel, one stream (Model/C35.lean, this file):
+      credit_conservation, never_exceeds_window, receiver_never_complains, myWindow_le_W,
+      window_add_no_overflow, stream_integrity, adjust_unblocks
+  One channel, SEVERAL streams on one window, wake semantics of sync.Cond (Model/C35_Multi.lean `stepC`,
+  proofs in Proofs/C35_Multi.lean; hypotheses `Setup`: 2 ≤ W < 2^32, max packet 1..32768, one writer per code):
+      credit_conservation_multi, never_exceeds_window_multi, receiver_never_complains_multi,
+      stream_integrity_multi (other streams' packets interleave on the wire without harm),
+      no_lost_wakeup        a writer sleeps in Cond.Wait only while the window is 0
+      adjust_wakes_all      ONE adjust (Broadcast) wakes EVERY parked writer and leaves a positive window
+      adjust_unblocks_all   window exhausted + reader drained ⇒ an adjust is in flight, handling it wakes all
+                            writers and EVERY writer with data can then put a packet on the wire
+      signal_loses_wakeup   with Cond.Signal (the seeded bug) a parked writer with window available is reachable
+  SEVERAL channels on one connection (`stepM`, shared FIFO wires):
+      proj_step, channel_run_of_connection_run   every channel of a connection run is a single-channel run
+      credit_conservation_conn, never_exceeds_window_conn, stream_integrity_conn
 -/
 import XC.Model.C35
+import XC.Proofs.C35_Multi
 namespace XC.C35
 
 /-- the threshold test of adjustWindow -/
